@@ -135,8 +135,92 @@ def open_findings(pid):
 # ---------------------------------------------------------------- the check object
 
 
+class SourceCoverage:
+    """Which executable lines of the property's anchored source files ran while the check was running (sys.monitoring, Python >= 3.12;
+    every location disables itself after its first hit, so the cost is negligible).  It bounds what the correspondence and the
+    search saw: an anchored line that never ran is a place where a change cannot have been noticed.  Reported, never judged."""
+
+    TOOL = 3
+
+    def __init__(self, files):
+        self.repo = os.path.realpath(os.environ.get("PYPRED_REPO", "/repo"))
+        self.files = {os.path.join(self.repo, f): f for f in files if f.endswith(".py")}
+        self.hit = {f: set() for f in self.files}
+        self.on = False
+        mon = getattr(sys, "monitoring", None)
+        if mon is None or os.environ.get("VERIF_SOURCE_COVERAGE", "1") == "0" or not self.files:
+            return
+        try:
+            mon.use_tool_id(self.TOOL, "verif-source-coverage")
+        except ValueError:
+            return
+        files, hit = self.files, self.hit
+
+        def on_line(code, line):
+            s = hit.get(code.co_filename)
+            if s is not None:
+                s.add(line)
+            return mon.DISABLE
+
+        mon.register_callback(self.TOOL, mon.events.LINE, on_line)
+        mon.set_events(self.TOOL, mon.events.LINE)
+        self.on = True
+
+    @staticmethod
+    def _lines(code, acc):
+        if code.co_flags & 0x1:  # CO_OPTIMIZED: a function body (class bodies ran at import, before the check started)
+            for _s, _e, ln in code.co_lines():
+                if ln is not None and ln != code.co_firstlineno:
+                    acc.add(ln)
+        for c in code.co_consts:
+            if hasattr(c, "co_lines"):
+                SourceCoverage._lines(c, acc)
+
+    def report(self):
+        if not self.on:
+            return None
+        mon = sys.monitoring
+        mon.set_events(self.TOOL, 0)
+        mon.register_callback(self.TOOL, mon.events.LINE, None)
+        mon.free_tool_id(self.TOOL)
+        self.on = False
+        out, th, tt = {}, 0, 0
+        for path, rel in sorted(self.files.items()):
+            try:
+                src = open(path, encoding="utf-8").read()
+                body = set()
+                top = compile(src, path, "exec")
+                for c in top.co_consts:  # function / class bodies only: module-level statements ran at import, before the check started
+                    if hasattr(c, "co_lines"):
+                        self._lines(c, body)
+            except (OSError, SyntaxError):
+                continue
+            text = src.split("\n")
+            # a `def` / `class` / decorator line executes when the enclosing body does (at import): not a line of behaviour
+            body = {n for n in body if 0 < n <= len(text) and not text[n - 1].lstrip().startswith(("def ", "class ", "@", '\"\"\"'))}
+            hit = self.hit[path] & body
+            miss = sorted(body - hit)
+            th += len(hit)
+            tt += len(body)
+            out[rel] = {"lines_hit": len(hit), "lines": len(body), "never_ran": miss[:60]}
+        return {"anchored_files": out, "lines_hit": th, "lines": tt,
+                "note": "executable lines inside function and class bodies of the files the property is anchored in; never_ran = lines no case of this run reached"}
+
+
+def anchored_files(pid):
+    try:
+        for line in open(os.path.join(ROOT, "properties.jsonl"), encoding="utf-8"):
+            d = json.loads(line)
+            if d.get("id") == pid:
+                return list((d.get("anchors") or {}).get("files") or [])
+    except (OSError, ValueError):
+        pass
+    return []
+
+
 class Check:
     def __init__(self, pid, tier):
+        self.source_cov = SourceCoverage(anchored_files(pid))
         self.pid = pid
         self.tier = tier
         self.seed = seed_from_env()
@@ -225,6 +309,9 @@ class Check:
 
     def write_evidence(self, violations):
         os.makedirs(EVIDENCE_DIR, exist_ok=True)
+        rep = self.source_cov.report()
+        if rep is not None:
+            self.extra["source_line_coverage"] = rep
         cov = {
             "obligations": len(self.obligations),
             "discharged": sum(1 for o in self.obligations if o[1]),
